@@ -45,16 +45,21 @@ func (l *YAML) Load(path string) error {
 
 // Unmarshal will decode bytes
 func (l *YAML) Unmarshal(b []byte) error {
-	if err := yaml.Unmarshal(b, &l.ServerConfig); err != nil {
+	// decode into a fresh value: yaml.Unmarshal merges into whatever the destination
+	// already holds, so reusing the previous configuration would keep keys, users and
+	// rules that the new document no longer contains
+	var c config.ServerConfig
+	if err := yaml.Unmarshal(b, &c); err != nil {
 		return fmt.Errorf("unable to unmarshal server config; %v", err)
 	}
-	if len(l.Secrets) < 1 {
+	if len(c.Secrets) < 1 {
 		return fmt.Errorf("no secret providers were unmarshalled from config, cannot serve")
 	}
-	if len(l.Users) < 1 {
+	if len(c.Users) < 1 {
 		return fmt.Errorf("no users were unmarshalled from config, cannot serve")
 	}
-	l.config <- l.ServerConfig
+	l.ServerConfig = c
+	l.config <- c
 	return nil
 }
 
